@@ -122,7 +122,7 @@ Variable s : sstate.
 Variable N : pt -> Prop.                  (* the nodes of the tree being stored *)
 Hypothesis Ncons : forall a b k, N a -> N b -> pt_id a = Some k -> pt_id b = Some k -> a = b.
 Hypothesis Hheap : forall j q c, In (j, q) (s_temp s) -> N c -> pt_oid q = pt_oid c -> q = c.
-Hypothesis Htemp : forall j q, In (j, q) (s_temp s) -> be_holds q (s_be s).
+Hypothesis Htemp : forall j q, In (j, q) (s_temp s) -> N q -> be_holds q (s_be s).
 
 Definition tx_ok (t : tx) : Prop :=
   NoDup (map fst t) /\
@@ -152,28 +152,31 @@ Proof.
 Qed.
 
 Definition vspec (p : pt) : Prop :=
-  (forall x, In x (nodes p) -> N x) -> forall t t', tx_ok t -> visit s p t = Ok t' ->
+  (forall x, In x (descendants p) -> N x) -> forall t t', tx_ok t -> visit s p t = Ok t' ->
   tx_ok t' /\ tx_le t t' /\ forall n, In n (descendants p) -> covered t' n.
 
 Lemma visit_one_spec c : vspec c -> (forall x, In x (nodes c) -> N x) -> forall t t', tx_ok t ->
   visit_one (visit s) s c t = Ok t' -> tx_ok t' /\ tx_le t t' /\ forall n, In n (nodes c) -> covered t' n.
 Proof.
-  intros IH Hc t t' Ht. unfold visit_one. destruct (pt_id c) as [i|] eqn:Ei.
+  intros IH Hc t t' Ht. unfold visit_one.
+  assert (Hd : forall x, In x (descendants c) -> N x) by (intros x Hx; apply Hc; rewrite nodes_cons; now right).
+  destruct (pt_id c) as [i|] eqn:Ei.
   - destruct (in_storage s i) eqn:Es; cbn [negb].
     + destruct (lookup i (s_temp s)) as [q|] eqn:El; [|discriminate].
       destruct (N.eqb (pt_oid q) (pt_oid c)) eqn:Eo; [|discriminate]. intros [= <-].
       apply N.eqb_eq in Eo. apply lookup_in in El.
-      assert (q = c) as -> by (eapply Hheap; eauto; apply Hc; rewrite nodes_cons; now left).
+      assert (Nc : N c) by (apply Hc; rewrite nodes_cons; now left).
+      assert (q = c) as -> by (eapply Hheap; eauto).
       split; [assumption|]. split; [apply tx_le_refl|]. intros n Hn k Hk. right. eapply Htemp; eauto.
     + destruct (visit s c t) as [t1|] eqn:Ev; [|discriminate]. cbn [bind]. intros [= <-].
-      destruct (IH Hc t t1 Ht Ev) as (O1 & L1 & C1).
+      destruct (IH Hd t t1 Ht Ev) as (O1 & L1 & C1).
       assert (Nc : N c) by (apply Hc; rewrite nodes_cons; now left).
       destruct (tx_put_ok t1 c i O1 Nc Ei Es) as (O2 & L2 & Lk).
       split; [assumption|]. split; [eapply tx_le_trans; eauto|].
       intros n Hn. rewrite nodes_cons in Hn. destruct Hn as [<-|Hn].
       * intros k Hk. left. congruence.
       * eapply covered_mono; eauto.
-  - intros Ev. destruct (IH Hc t t' Ht Ev) as (O1 & L1 & C1). split; [assumption|]. split; [assumption|].
+  - intros Ev. destruct (IH Hd t t' Ht Ev) as (O1 & L1 & C1). split; [assumption|]. split; [assumption|].
     intros n Hn. rewrite nodes_cons in Hn. destruct Hn as [<-|Hn]; [|auto]. intros k Hk. congruence.
 Qed.
 
@@ -193,10 +196,10 @@ Qed.
 Ltac leaf := intros HN t t' Ht Ev; cbn [visit] in Ev; destruct (negb _); [discriminate|]; injection Ev as <-;
   (split; [assumption|]); (split; [apply tx_le_refl|]); intros nn [].
 Ltac one IHp := intros HN t t' Ht Ev; cbn [visit] in Ev; destruct (negb _); [discriminate|];
-  apply (visit_one_spec _ IHp) in Ev; [|intros x Hx; apply HN; cbn [nodes]; now right|assumption];
+  apply (visit_one_spec _ IHp) in Ev; [|intros x Hx; apply HN; unfold descendants; cbn [nodes tl]; exact Hx|assumption];
   destruct Ev as (O1 & L1 & C1); (split; [assumption|]); (split; [assumption|]); intros nn Hnn; apply C1; exact Hnn.
 Ltac many H := intros HN t t' Ht Ev; cbn [visit] in Ev; destruct (negb _); [discriminate|];
-  apply (visit_list_spec _ H) in Ev; [|intros x Hx; apply HN; cbn [nodes]; now right|assumption];
+  apply (visit_list_spec _ H) in Ev; [|intros x Hx; apply HN; unfold descendants; cbn [nodes tl]; exact Hx|assumption];
   destruct Ev as (O1 & L1 & C1); (split; [assumption|]); (split; [assumption|]); intros nn Hnn; apply C1; exact Hnn.
 
 Lemma visit_spec : forall p, vspec p.
@@ -209,9 +212,9 @@ Proof.
   - one IHp. - one IHp.
   - intros HN t t' Ht Ev; cbn [visit] in Ev. destruct (negb _); [discriminate|].
     destruct (visit_one (visit s) s p1 t) as [t1|] eqn:E1; [|discriminate]. cbn [bind] in Ev.
-    apply (visit_one_spec _ IHp1) in E1; [|intros x Hx; apply HN; cbn [nodes]; right; apply in_or_app; now left|assumption].
+    apply (visit_one_spec _ IHp1) in E1; [|intros x Hx; apply HN; unfold descendants; cbn [nodes tl]; apply in_or_app; now left|assumption].
     destruct E1 as (O1 & L1 & C1).
-    apply (visit_one_spec _ IHp2) in Ev; [|intros x Hx; apply HN; cbn [nodes]; right; apply in_or_app; now right|assumption].
+    apply (visit_one_spec _ IHp2) in Ev; [|intros x Hx; apply HN; unfold descendants; cbn [nodes tl]; apply in_or_app; now right|assumption].
     destruct Ev as (O2 & L2 & C2).
     split; [assumption|]. split; [eapply tx_le_trans; eauto|].
     intros nn Hn. unfold descendants in Hn. cbn [nodes tl] in Hn. apply in_app_or in Hn as [Hn|Hn]; [eapply covered_mono; eauto|auto].
@@ -219,6 +222,9 @@ Proof.
   - leaf.
 Qed.
 End Visit.
+
+Lemma in_cons_desc P x : In x (descendants P) -> In x (nodes P).
+Proof. intros H. rewrite nodes_cons. now right. Qed.
 
 (* ---- one store ---------------------------------------------------------------------------------------------------------- *)
 Lemma be_holds_sub P n be : In n (nodes P) -> be_holds P be -> be_holds n be.
@@ -248,9 +254,9 @@ Proof.
   set (N := fun x => In x (nodes P)).
   assert (Ncons : forall a b k, N a -> N b -> pt_id a = Some k -> pt_id b = Some k -> a = b) by (intros; eapply HC; eauto).
   assert (Hheap : forall j q c, In (j, q) (s_temp s) -> N c -> pt_oid q = pt_oid c -> q = c) by (intros; eapply HH; eauto).
-  assert (Htemp : forall j q, In (j, q) (s_temp s) -> be_holds q (s_be s)) by (intros j q H; apply (HT j q H)).
+  assert (Htemp : forall j q, In (j, q) (s_temp s) -> N q -> be_holds q (s_be s)) by (intros j q H _; apply (HT j q H)).
   assert (T0 : tx_ok s N []) by (split; [constructor|intros k e []]).
-  destruct (visit_spec s N Ncons Hheap Htemp P (fun x Hx => Hx) [] t T0 Ev) as (O1 & L1 & C1).
+  destruct (visit_spec s N Ncons Hheap Htemp P (fun x Hx => in_cons_desc P x Hx) [] t T0 Ev) as (O1 & L1 & C1).
   assert (Es : in_storage s i = false).
   { unfold in_storage. rewrite Eb. apply has_key_false in El. now rewrite El. }
   assert (NP : N P) by (unfold N; rewrite nodes_cons; now left).
